@@ -334,6 +334,84 @@ def cases_of(name, n, mode, full, k, reps_from):
                 yield [name, n, mode, [list(pv) for pv in zip(pos, vals)]]
 
 
+# --- many arguments: the library has a separate path for calls with 32 or more arguments ---------------------------------
+MANY = [('CONCATENATE', '"x"'), ('CONCAT', '"x"'), ('SUM', '1'), ('MAX', '1'), ('MIN', '1'), ('PRODUCT', '1'), ('AVERAGE', '1'), ('AND', 'TRUE'),
+        ('OR', 'FALSE'), ('XOR', 'FALSE'), ('SUMSQ', '1'), ('MEDIAN', '1'), ('COUNTA', '1'), ('IFS', None), ('SWITCH', None)]
+
+
+def many_cases():
+    for name, filler in MANY:
+        for n in (31, 32, 33, 40):
+            for pos in sorted({1, 2, 16, n - 1, n}):
+                for how in ('lit', 'ref', 'none'):
+                    for err in ('#N/A', '#DIV/0!'):
+                        if how == 'none' and (pos != 1 or err != '#N/A'):
+                            continue
+                        yield ['many', name, n, pos, how, err]
+
+
+def run_many(case):
+    _, name, n, pos, how, err = case
+    e = 'B1' if how == 'ref' else err
+    inputs = {'B1': ('e', err)} if how == 'ref' else {}
+    filler = dict(MANY)[name]
+    consumed = True
+    if name == 'IFS':            # pairs (condition, value); the error is a condition that is reached, or the selected value
+        args = ['FALSE', '0'] * (n // 2)
+        args[-2:] = ['TRUE', '"last"']
+        if how != 'none':
+            k = min((pos - 1) // 2 * 2, len(args) - 4)      # before the final catch-all pair
+            args[k:k + 2] = [e, '5'] if pos % 2 else ['TRUE', e]
+        n_eff = len(args)
+    elif name == 'SWITCH':       # SWITCH(value, key, result, ..., default)
+        args = ['2'] + [x for i in range((n - 1) // 2) for x in (str(9000 + i), '"x"')]
+        if len(args) < n or how == 'none':
+            args.append('"d"')
+        if how != 'none':
+            if pos == 1:
+                args[0] = e
+            elif pos % 2 == 0:
+                args[pos - 1] = e          # a key: compared with the value -> error
+            else:
+                args[pos - 2:pos] = ['2', e]   # the selected result
+    elif name == 'CHOOSE':
+        args = ['1'] + ['"c%d"' % i for i in range(n - 1)]
+        if how != 'none':
+            if pos == 1:
+                args[0] = e
+            else:
+                args[0], args[pos - 1] = str(pos - 1), e
+    else:
+        args = [filler] * n
+        if how != 'none':
+            args[pos - 1] = e
+        consumed = name != 'COUNTA'
+    f = '=%s(%s)' % (name, ','.join(args))
+    got = evaluate(f, inputs, 'A1')
+    fields = dict(func=name, base=name, nargs=len(args), mode='many', formula=f[:120], errpos=pos, how=how, err=err)
+    fails = []
+    if isinstance(got, tuple):
+        fails.append(Fail('missing-output' if got[1] == 'missing-output' else 'raises', got=got[1], exp='an Excel value', gotk=got[1], **fields))
+        return result(1, ['many:%s' % got[1]], fails)
+    top = got[0][0]
+    if top[0] == 'BAD':
+        fails.append(Fail('ill-formed', got=top[1], exp='an Excel value', gotk=top[1], **fields))
+    elif how != 'none' and consumed and top[0] != 'e':
+        fails.append(Fail('error-lost', got=kind(top), exp='an error (argument %d of %d is %s)' % (pos, len(args), err), gotk=kind(top), **fields))
+    elif how == 'none' and top[0] == 'e':
+        fails.append(Fail('spurious-error', got=kind(top), exp='a value', gotk=kind(top), **fields))
+    return result(1, ['many:%s:%s' % ('ge32' if len(args) >= 32 else 'lt32', kind(top))], fails)
+
+
+_run_case_functions = run_case
+
+
+def run_case(case):
+    if case and case[0] == 'many':
+        return run_many(case)
+    return _run_case_functions(case)
+
+
 def run(ctx):
     import formulas
     functions = dict(formulas.get_functions())
@@ -348,6 +426,7 @@ def run(ctx):
         sys.exit(2)
     pl, skipped = plan(ctx.tier, functions)
     ctx.explore(run_case, (c for p in pl for c in cases_of(*p)), chunksize=128, label='function x count x tuples')
+    ctx.explore(run_case, many_cases(), chunksize=16, label='calls with 31-40 arguments')
     return {'oracle_audit': au, 'functions': len(functions), 'function_count_pairs': len({(p[0], p[1]) for p in pl}), 'pool_size': len(A.POOL),
             'full_product_up_to_arity': 3 if ctx.tier == 'thorough' else 2, 'deviation_bound': 3 if ctx.tier == 'thorough' else 2,
             'variadic_cap': 'min+3', 'unbindable_counts': skipped,
